@@ -1088,6 +1088,12 @@ func runScenario(t *testing.T, sc *Scenario, tr int, out *bufio.Writer) {
 			synctest.Wait()
 		case "releaseall":
 			r.releaseAll()
+		case "quiet":
+			// a quiescent point without time passing: every gate open, every goroutine blocked for good
+			r.releaseAll()
+			r.mu.Lock()
+			r.emit("Quiet", map[string]any{"a": len(r.heldOrder)})
+			r.mu.Unlock()
 		case "free":
 			r.mu.Lock()
 			r.freeRun = true
